@@ -158,6 +158,10 @@ func c19R2(e *Engine) {
 			continue
 		}
 		var dispatch, validate *ssa.Call
+		dsite, _ := e.batchWritePath(role)
+		if dsite != nil {
+			dispatch, _ = dsite.call.(*ssa.Call)
+		}
 		instrs(bw, func(in ssa.Instruction) {
 			c, ok := in.(*ssa.Call)
 			if !ok || isBuiltin(c) {
@@ -166,9 +170,6 @@ func c19R2(e *Engine) {
 			g := c.Call.StaticCallee()
 			if g == nil || e.fnRole(g) != role {
 				return
-			}
-			if e.reach(g)[put] && dispatch == nil {
-				dispatch = c
 			}
 			// validator: takes the batch input, returns only error, reaches no client method
 			if g.Signature.Results().Len() == 1 && isErrorType(g.Signature.Results().At(0).Type()) && len(g.Params) == 1 && strings.HasSuffix(typeName(g.Params[0].Type()), "BatchWriteItemInput") {
@@ -183,11 +184,16 @@ func c19R2(e *Engine) {
 		if validate == nil {
 			e.fail("R2", construct+":validated-first", e.pos(bw.Pos()), "the batch input is not validated before the first request is executed")
 		} else {
-			isNil, _ := knownNilness(dispatch.Block(), func(v ssa.Value) bool { return v == ssa.Value(validate) })
-			e.check(isNil && idominates(validate, dispatch), "R2", construct+":validated-first", e.ipos(validate), "validation dominates the first request and requests run only on its nil edge")
+			top := dsite.chainInstrs()[len(dsite.chainInstrs())-1] // the dispatch as seen from BatchWriteItem
+			isNil, _ := knownNilness(top.Block(), func(v ssa.Value) bool { return v == ssa.Value(validate) })
+			e.check(isNil && idominates(validate, top), "R2", construct+":validated-first", e.ipos(validate), "validation dominates the first request and requests run only on its nil edge")
 		}
 		ranges, bad := 0, ""
-		for _, c := range condsAt(dispatch.Block()) {
+		var chainConds []Cond
+		for _, ci := range dsite.chainInstrs() {
+			chainConds = append(chainConds, condsAt(ci.Block())...)
+		}
+		for _, c := range chainConds {
 			if ex, ok := c.V.(*ssa.Extract); ok {
 				if _, isNext := ex.Tuple.(*ssa.Next); isNext && ex.Index == 0 {
 					ranges++
@@ -204,8 +210,10 @@ func c19R2(e *Engine) {
 			bad = c.V.String()
 		}
 		if bad == "" {
-			if _, why := e.visitsEveryElement(dispatch, nil); why != "" {
-				bad = why
+			for _, ci := range dsite.chainInstrs() {
+				if _, why := e.visitsEveryElement(ci, nil); why != "" {
+					bad = why
+				}
 			}
 		}
 		e.check(bad == "" && ranges >= 2, "R2", construct+":loops", e.ipos(dispatch), "every request of every table is executed (range loops: %d, problem: %q)", ranges, bad)
@@ -227,12 +235,7 @@ func c19R2(e *Engine) {
 		// … and what is dispatched is an element of the request's own per-table list, visited in place: a loop over a
 		// rebuilt list (deletes first, de-duplicated, grouped) is a different order or a different multiset
 		reqArg := dispatch.Call.Args[len(dispatch.Call.Args)-1]
-		var ros []string
-		e.walkLocal(role, bw, 0, func(in ssa.Instruction, ctx []callCtx) {
-			if in == ssa.Instruction(dispatch) {
-				ros = e.originsCtx(reqArg, ctx)
-			}
-		})
+		ros := e.originsCtx(reqArg, dsite.ctx)
 		for _, o := range ros {
 			okO := strings.HasSuffix(o, "Input.RequestItems") && (strings.HasPrefix(o, "rangeval-of rangeval-of ") || strings.HasPrefix(o, "elem-of rangeval-of "))
 			if !okO && reorder == "" {
